@@ -566,7 +566,7 @@ Proof. vm_compute. repeat split. Qed.
    either byte order, whatever else the file holds, through any directory whose last entry of the type points at the
    header. *)
 Theorem c02_maccrash_any_placement : forall e all v rest stype start alllocs recs l1 size rva l3,
-  wt L_MINIDUMP_MAC_CRASH_INFO v = true ->
+  wt L_MINIDUMP_MAC_CRASH_INFO v = true -> zlen recs <= RD_MAC_RECORDS_MAX ->
   vflat v = stype :: zlen recs :: start :: unpairs alllocs ->
   records_at e all start (firstn (length recs) alllocs) recs ->
   (forall a b, In a recs -> In b recs -> rec_version a = rec_version b) ->
@@ -575,9 +575,9 @@ Theorem c02_maccrash_any_placement : forall e all v rest stype start alllocs rec
    ~ In ST_MozMacosCrashInfoStream (map fst l3) ->
    get_stream dec_maccrash e all (l1 ++ (ST_MozMacosCrashInfoStream, (size, rva)) :: l3) ST_MozMacosCrashInfoStream = SOk recs).
 Proof.
-  intros e all v rest stype start alllocs recs l1 size rva l3 H1 H2 H3 H4. split.
-  - exact (maccrash_any_placement e all v rest stype start alllocs recs H1 H2 H3 H4).
-  - exact (maccrash_served e all v rest stype start alllocs recs l1 size rva l3 H1 H2 H3 H4).
+  intros e all v rest stype start alllocs recs l1 size rva l3 H1 H0 H2 H3 H4. split.
+  - exact (maccrash_any_placement e all v rest stype start alllocs recs H1 H0 H2 H3 H4).
+  - exact (maccrash_served e all v rest stype start alllocs recs l1 size rva l3 H1 H0 H2 H3 H4).
 Qed.
 Print Assumptions c02_maccrash_any_placement.
 
